@@ -907,7 +907,7 @@ func (m *monC17) check(w *World, ctx sdk.Context, q *QuerySpec) {
 	seen := map[string]int{}
 	var key []byte
 	offset := uint64(0)
-	for page := 0; page < 64; page++ {
+	for page := 0; page < 2000; page++ {
 		pr := &query.PageRequest{Limit: limit, CountTotal: q.Count, Reverse: q.Rev}
 		if q.Offset {
 			pr.Offset = offset
